@@ -98,7 +98,7 @@ let candidate (v : view) : op option =
       if b - a > 0 then Some (OSlicedS (z a, z b, z (pick (divisors (b - a))))) else None
   | `Strided -> if n > 0 then Some (OStrided (z (pick (divisors n)))) else Some (OStrided (z (rnd_range 1 3)))
   | `Dropped -> Some (ODropped (z (rnd_range 0 n)))
-  | `Taked -> if r = 1 then Some (OTaked (z (rnd_range 0 n))) else None
+  | `Taked -> Some (OTaked (z (rnd_range 0 n)))
   | `Rotated -> Some ORotated
   | `Unrotated -> Some OUnrotated
   | `Transposed -> if r >= 2 then Some OTransposed else None
